@@ -373,6 +373,80 @@ def record_wallet_messages(run: Run, rnd: random.Random, thorough: bool, evs: li
     return n
 
 
+def record_finalizer_verdicts(run: Run, rnd: random.Random, thorough: bool, evs: list[dict[str, Any]]) -> int:
+    """What the finalizer takes is what the engine will accept: a multisig input whose partial signatures carry different hash type bytes (the input
+    states none), each made over the digest of its own byte -- and the same with one signature made over the digest of the other's byte.  The event is
+    the transaction those signatures make with the finalizer's verdict as its answer; the specification's engine says whether each signature verifies
+    under its own byte."""
+    from btclib.curves import mult
+    from btclib.ecc import dsa
+    from btclib.psbt.psbt import Psbt, finalize
+    from btclib.script import sig_hash
+    from btclib.script.script_pub_key import ScriptPubKey
+    from btclib.script.witness import Witness
+    from btclib.tx import OutPoint, Tx, TxIn, TxOut
+
+    N_ = 0xFFFFFFFFFFFFFFFFFFFFFFFFFFFFFFFEBAAEDCE6AF48A03BBFD25E8CD0364141
+    n = 0
+    pairs = [(1, 0x81), (0x81, 1), (1, 2), (3, 0x83), (2, 0x82), (1, 1), (0x83, 1)]
+    for wrap in ("p2wsh", "p2sh", "p2sh-p2wsh"):
+        for (t1, t2) in (pairs if thorough else pairs[:5]):
+            for lie in (None, 0, 1):
+                ds = [rnd.randrange(1, N_) for _ in range(2)]
+                pubs = []
+                for d in ds:
+                    P = mult(d)
+                    pubs.append(bytes([2 + P[1] % 2]) + P[0].to_bytes(32, "big"))
+                script = b"\x52" + b"".join(b"\x21" + k for k in pubs) + b"\x52\xae"
+                if wrap == "p2wsh":
+                    spk = ScriptPubKey.p2wsh(script).script
+                elif wrap == "p2sh":
+                    spk = ScriptPubKey.p2sh(script).script
+                else:
+                    spk = ScriptPubKey.p2sh(ScriptPubKey.p2wsh(script).script).script
+                amount = 50_000
+                prev = TxOut(amount, ScriptPubKey(spk, check_validity=False), check_validity=False)
+                prev_tx = Tx(2, 0, [TxIn(OutPoint(b"\x44" * 32, 0), b"\x51", 0xFFFFFFFF, check_validity=False)], [TxOut(7_000, ScriptPubKey(b"\x51", check_validity=False), check_validity=False), prev], check_validity=False)
+                tx = Tx(2, 0, [TxIn(OutPoint(prev_tx.id, 1), b"", 0xFFFFFFFD, check_validity=False)],
+                        [TxOut(20_000, ScriptPubKey(bytes.fromhex("0014") + bytes([0x61]) * 20)), TxOut(20_000, ScriptPubKey(bytes.fromhex("0014") + bytes([0x62]) * 20))], check_validity=False)
+                segwit = "wsh" in wrap
+                types = [t1, t2]
+
+                def digest(ht: int) -> bytes:
+                    return sig_hash.segwit_v0(script, tx, 0, ht, amount) if segwit else sig_hash.legacy(script, tx, 0, ht)
+
+                sigs = []
+                for j, d in enumerate(ds):
+                    over = types[1 - j] if lie == j else types[j]           # the lie: made over the other signature's type, labelled with its own
+                    sigs.append(dsa.sign_(digest(over), d).serialize() + bytes([types[j]]))
+                psbt = Psbt.from_tx(tx)
+                pin = psbt.inputs[0]
+                pin.non_witness_utxo = prev_tx
+                if segwit:
+                    pin.witness_utxo = prev
+                    pin.witness_script = script
+                    if wrap == "p2sh-p2wsh":
+                        pin.redeem_script = ScriptPubKey.p2wsh(script).script
+                else:
+                    pin.redeem_script = script
+                pin.partial_sigs = {pubs[0]: sigs[0], pubs[1]: sigs[1]}
+                took = not isinstance(outcome(lambda: finalize(psbt)), str)
+                # the transaction these signatures make, assembled by hand (the finalizer's own output exists only where it took them)
+                final = Tx(2, 0, [TxIn(OutPoint(prev_tx.id, 1), b"", 0xFFFFFFFD, check_validity=False)], tx.vout, check_validity=False)
+                push = lambda b: (bytes([len(b)]) if len(b) < 76 else b"\x4c" + bytes([len(b)])) + b  # noqa: E731
+                if wrap == "p2sh":
+                    final.vin[0].script_sig = b"\x00" + push(sigs[0]) + push(sigs[1]) + push(script)
+                else:
+                    final.vin[0].script_witness = Witness([b"", sigs[0], sigs[1], script])
+                    if wrap == "p2sh-p2wsh":
+                        final.vin[0].script_sig = push(ScriptPubKey.p2wsh(script).script)
+                evs.append({"op": "verify", "tx": final.serialize(include_witness=True, check_validity=False).hex(), "prevouts": [{"value": nat(amount), "spk": spk.hex()}], "idx": 0, "flags": STANDARD,
+                            "ok": took, "kind": f"the finalizer's verdict on a {wrap} 2-of-2 input with signatures of hash types {t1:#x} and {t2:#x}" + ("" if lie is None else f", signature {lie} made over the other's digest")})
+                n += 1
+    return n
+
+
+
 def check(run: Run) -> None:
     thorough = run.tier == "thorough"
     rnd = random.Random(run.seed)
@@ -388,6 +462,7 @@ def check(run: Run) -> None:
     s2 = record_messages(run, rnd, thorough, evs)
     s2["wallet"] = record_wallet_messages(run, rnd, thorough, evs)
     s4 = record_tr_script_spends(run, rnd, thorough, evs)
+    s2["finalizer verdicts"] = record_finalizer_verdicts(run, rnd, thorough, evs)
     # wsh(miniscript) spends: what the library's satisfier produces is judged by the specification's engine too (C15 has the full set)
     from . import c15
 
